@@ -57,7 +57,7 @@ def relation_traces(ctx, T):
         centres += [(float(v), "intlist") for v in (-3, -2, -1, 1, 2, 3, 5, 8) if lo < v < hi][:3]
         for x, how in centres:
             k = int(math.floor(math.log2(abs(x) / 64.0))) if x != 0 else -10
-            k = min(k, int(math.floor(math.log2((hi - lo) / 64.0))))       # narrow domains (Logit between huge bounds): step from the width
+            k = min(k, int(math.floor(math.log2((hi - lo) / 128.0))))      # narrow domains (Logit between bounds far from zero): step from the width
             h = 2.0 ** k
             if x - 2 * h <= lo or x + 2 * h >= hi or any(abs(x - b) <= 4 * h for b in bps):
                 continue
@@ -142,6 +142,7 @@ def run(ctx):
                 "Logit, Sinh at Pythagorean points, Softmax determinant); relation monitor: for ~280 class x parameter settings, forward on an increasing "
                 "grid (non-decreasing) and the stencil 8(f(x+h)-f(x-h))-(f(x+2h)-f(x-2h)) = 12 h J(x) with h = 2^k, logged as 24-bit mantissa pairs and "
                 "checked by TransformTrace.tla at 1e-4 (inconclusive when cancellation leaves < 13 bits). all cases non-trivial.")
+    tc.RANDOM_SETTINGS[:] = [0 if ctx.tier == "quick" else 1200, ctx.seed]
     exact_replay(ctx, T)
     relation_traces(ctx, T)
     ctx.assumptions += ["outside the rational sub-domain the Jacobian is only checked for consistency with the recorded forward values (stencil) and sign",
